@@ -11,6 +11,11 @@ chk("C18", "model_checking",
     "IAVL/goleveldb trusted; cancelSet/cancelDel and the consensus-delete mirroring follow the implementation's documented behaviour (statement is silent); bounds as in evidence.",
     "explicit-state exploration of op sequences on the real ledger vs map model (DFS + BFS with state hashing)", "§5 C18")
 
+chk("C20", "model_checking",
+    "Explicit-state exploration of signing-request sequences on the real file-backed signer: BFS to a fixpoint over 64 requests x {plain, reload-before, failing-state-write+restart, both} with state hashing (persisted record, in-memory record, released-signature summary), plus unpruned DFS of all sequences of length 2 (all decorations; thorough: length 3 with reloads). Invariant over every signature ever released: one content per height/round/step, no regression, original re-served with original timestamp, signature verifies, record durable before release, nothing released when the write fails.",
+    "Durability below rename(2) is not observable in-process; failing write = missing state directory + restart; secp256k1/tendermint sign-bytes trusted.",
+    "explicit-state exploration of request sequences with reload/write-fault injection on the real signer (BFS to fixpoint + DFS)", "§5 C20")
+
 ALL = ["C%02d" % i for i in range(1, 21)]
 PENDING_REASON = "check under construction in this round (model-checking harness not yet registered); see DESIGN.md §5"
 
